@@ -359,6 +359,13 @@ Abs == INSTANCE CreateCounters WITH phase <- AbsPhase, sites <- sites, skipped <
                                     applied <- AppliedCount, out <- out, strict <- strict
 RefinesCounters == Abs!CSpec
 
+(* The stderr protocol of skipped sites (grown beyond the listed properties): the first skipped site is       *)
+(* announced at the default verbosity, every later one only with -v; the summary follows at the end.           *)
+SkippedSiteNames == LET S == SelectSeq([r \in 1..Len(recs) |-> r], LAMBDA r : r <= i /\ RowClass(recs[r]) = "skip")
+                    IN  [k \in 1..Len(S) |-> SiteName(S[k])]
+AnnouncedAt(verbosity) == IF verbosity >= 1 THEN SkippedSiteNames
+                          ELSE IF SkippedSiteNames = <<>> THEN <<>> ELSE <<SkippedSiteNames[1]>>
+
 (****************************** JSON boundary ******************************)
 GtJson(row) == [s \in DOMAIN row.gt |-> Render(row.gt[s])]
 Terminal == phase \in {"done", "failed"}
@@ -382,5 +389,7 @@ Emit ==
              shape |-> IF BuildProblems = {} THEN OutShape ELSE <<>>,
              scs |-> IF phase = "done" THEN [q \in 1..Len(scs) |-> QStr(scs[q])] ELSE <<>>,
              sites |-> sites,
-             skipped |-> skipped]))
+             skipped |-> skipped,
+             announced_default |-> IF phase = "done" THEN AnnouncedAt(0) ELSE <<>>,
+             announced_verbose |-> IF phase = "done" THEN AnnouncedAt(1) ELSE <<>>]))
 =============================================================================
